@@ -66,6 +66,8 @@ pub enum Auth {
     NoClientAuth,
     Required,
     Optional,
+    /// like `Optional`, with `client_auth_optional(true)` called before `client_ca_root(..)`
+    OptionalFlagFirst,
     /// a client CA was configured, but the PEM holds no certificate (e.g. the key file by mistake)
     RequiredEmptyCa,
 }
@@ -80,6 +82,9 @@ pub enum Cell {
     /// a ClientTlsConfig trusting only the wrong CA, and a clone of it that additionally trusts the right one;
     /// the clone is used first, then the original
     CloneFamily,
+    /// the listener reports a non-transient accept error (EMFILE-like); afterwards a plaintext HTTP/2 client and
+    /// then a proper TLS client connect to the server (TLS with a required client CA)
+    AcceptErrorThenPlaintext,
     /// https endpoint, no TLS configuration at all (eager or lazy channel)
     HttpsWithoutTls { lazy: bool },
     /// tonic client against tonic server with client authentication
@@ -121,10 +126,11 @@ fn all_cells() -> Vec<Cell> {
         v.push(Cell::TwoListeners { ident });
     }
     v.push(Cell::CloneFamily);
+    v.push(Cell::AcceptErrorThenPlaintext);
     // a TLS client that offers only http/1.1 must not be served by the (HTTP/2-only) gRPC server
     v.push(Cell::RawClient { ident: Ident::NoCert, auth: Auth::NoClientAuth, alpn: Alpn::Http11 });
     for ident in [Ident::NoCert, Ident::Valid, Ident::ByOtherCa] {
-        for auth in [Auth::NoClientAuth, Auth::Required, Auth::Optional, Auth::RequiredEmptyCa] {
+        for auth in [Auth::NoClientAuth, Auth::Required, Auth::Optional, Auth::OptionalFlagFirst, Auth::RequiredEmptyCa] {
             v.push(Cell::Mutual { ident, auth });
             for alpn in [Alpn::H2, Alpn::NoAlpn] {
                 v.push(Cell::RawClient { ident, auth, alpn });
@@ -274,6 +280,7 @@ fn run_mutual(c: &Case, ident: Ident, auth: Auth, raw_client: Option<Alpn>) -> R
             Auth::NoClientAuth => {}
             Auth::Required => st = st.client_ca_root(Certificate::from_pem(CA_CLIENT)),
             Auth::Optional => st = st.client_ca_root(Certificate::from_pem(CA_CLIENT)).client_auth_optional(true),
+            Auth::OptionalFlagFirst => st = st.client_auth_optional(true).client_ca_root(Certificate::from_pem(CA_CLIENT)),
             Auth::RequiredEmptyCa => st = st.client_ca_root(Certificate::from_pem(SERVER_GOOD.1)),
         }
         let builder = match tonic::transport::Server::builder().tls_config(st) {
@@ -436,6 +443,62 @@ fn run_two_listeners(c: &Case, ident: Ident) -> Result<(bool, usize, bool, usize
     }
 }
 
+/// After a non-transient accept error the server keeps serving - and keeps serving *TLS*.
+/// Returns (plaintext call ok, handler runs after the plaintext attempt, TLS call ok, handler runs at the end, errors).
+fn run_accept_error_then_plaintext(c: &Case) -> Result<(bool, usize, bool, usize, String), Failure> {
+    let sh = Shared::new(vec![HandlerScript { msgs: vec![RespMsg { data: Blob::of(b"pong"), pend: 0, delay_ms: 0 }], ..Default::default() }]);
+    let (net, incoming) = Net::new(vec![(c.c2s.clone(), c.s2c.clone())]);
+    let sh2 = sh.clone();
+    let res = rt::run_virtual(c.rt_seed, Duration::from_secs(3600), async move {
+        let st = ServerTlsConfig::new().identity(Identity::from_pem(SERVER_GOOD.0, SERVER_GOOD.1)).client_ca_root(Certificate::from_pem(CA_CLIENT));
+        let server = tonic::transport::Server::builder().tls_config(st).map_err(|e| format!("{e:?}"))?.add_service(vt::raw_server::RawServer::new(sh2.clone()));
+        let t = tokio::spawn(async move { server.serve_with_incoming(incoming).await });
+        net.inject_accept_error(std::io::ErrorKind::Other);
+        rt::quiesce().await;
+        // ---- a client that does not speak TLS at all
+        let (io, _h) = net.open().map_err(|e| format!("open: {e}"))?;
+        let plain = async {
+            let (mut send_req, conn) = h2::client::handshake(io).await.map_err(|e| format!("h2 handshake: {e}"))?;
+            let ct = tokio::spawn(async move {
+                let _ = conn.await;
+            });
+            let req = http::Request::builder().method("POST").uri("http://good.test/vt.Raw/Unary").header("content-type", "application/grpc").header("te", "trailers").body(()).unwrap();
+            let r = async {
+                let (resp, mut stream) = send_req.send_request(req, false).map_err(|e| format!("send_request: {e}"))?;
+                stream.send_data(Bytes::from(wire::frame(0, b"ping")), true).map_err(|e| format!("send_data: {e}"))?;
+                let resp = resp.await.map_err(|e| format!("response: {e}"))?;
+                Ok::<_, String>(resp.status() == 200)
+            }
+            .await;
+            ct.abort();
+            r
+        };
+        let plain_res = match tokio::time::timeout(Duration::from_secs(30), plain).await {
+            Ok(r) => r,
+            Err(_) => Err("no answer to the plaintext client within 30 s (virtual)".to_string()),
+        };
+        rt::quiesce().await;
+        let hits_after_plain = sh2.log.lock().unwrap().len();
+        // ---- a proper client is still served
+        let tcfg = ClientTlsConfig::new().ca_certificate(Certificate::from_pem(CA_A)).domain_name("good.test").identity(Identity::from_pem(CLIENT_VALID.0, CLIENT_VALID.1));
+        let tls_res = match tonic::transport::Endpoint::from_static("https://good.test").tls_config(tcfg) {
+            Err(e) => Err(format!("tls_config: {e:?}")),
+            Ok(ep) => match ep.connect_with_connector(net.connector()).await {
+                Err(e) => Err(format!("connect: {e:?}")),
+                Ok(ch) => vt::raw_client::RawClient::new(ch).unary(b"ping".to_vec()).await.map(|_| ()).map_err(|s| format!("call: {s:?}")),
+            },
+        };
+        rt::quiesce().await;
+        t.abort();
+        Ok::<_, String>((plain_res, hits_after_plain, tls_res))
+    });
+    match res {
+        Err(_) => bail!("C15/never-resolves", "TLS scenario did not finish"),
+        Ok(Err(e)) => bail!("C15/accept-error-setup", "{e}"),
+        Ok(Ok((p, hp, t))) => Ok((p == Ok(true), hp, t.is_ok(), sh.log.lock().unwrap().len(), format!("plaintext: {p:?} | tls: {t:?}"))),
+    }
+}
+
 /// Configs derived from one another by clone + builder calls are independent values.
 fn run_clone_family(c: &Case) -> Result<(bool, bool, usize, String), Failure> {
     let sh = Shared::new(vec![HandlerScript { msgs: vec![RespMsg { data: Blob::of(b"pong"), pend: 0, delay_ms: 0 }], ..Default::default() }]);
@@ -527,6 +590,12 @@ pub fn run(c: &Case, o: &mut Outcome) -> Result<(), Failure> {
                 ensure!(seen.hits == 0, format!("C15/request-reached-peer-without-authentication/{why}"), "a request was transmitted although {why}");
             }
         }
+        Cell::AcceptErrorThenPlaintext => {
+            o.label("accept_error_then_plaintext_client");
+            let (plain_ok, hits_plain, tls_ok, hits_end, errs) = run_accept_error_then_plaintext(c)?;
+            ensure!(!plain_ok && hits_plain == 0, "C15/plaintext-client-served/after-accept-error", "after an accept error a client that does not speak TLS was answered by the TLS server ({hits_plain} handler runs): {errs}");
+            ensure!(tls_ok && hits_end == 1, "C15/authorised-client-refused/after-accept-error", "after an accept error a properly authenticated client was not served: {errs}");
+        }
         Cell::CloneFamily => {
             o.label("client_config_clone_family");
             let (ok_wide, ok_base, hits, errs) = run_clone_family(c)?;
@@ -554,6 +623,7 @@ pub fn run(c: &Case, o: &mut Outcome) -> Result<(), Failure> {
                 Auth::NoClientAuth => "auth_none",
                 Auth::Required => "auth_required",
                 Auth::Optional => "auth_optional",
+                Auth::OptionalFlagFirst => "auth_optional_flag_set_before_ca",
                 Auth::RequiredEmptyCa => "auth_required_empty_ca",
             });
             o.label(match ident {
@@ -574,8 +644,8 @@ pub fn run(c: &Case, o: &mut Outcome) -> Result<(), Failure> {
                 (Auth::Required, _) => Some(false),
                 // a client CA without any certificate can vouch for nobody (refusing to start is fine too)
                 (Auth::RequiredEmptyCa, _) => Some(false),
-                (Auth::Optional, Ident::ByOtherCa) => None,
-                (Auth::Optional, _) => Some(true),
+                (Auth::Optional | Auth::OptionalFlagFirst, Ident::ByOtherCa) => None,
+                (Auth::Optional | Auth::OptionalFlagFirst, _) => Some(true),
             };
             match expect {
                 Some(true) => ensure!(seen.call_ok && seen.hits == 1, "C15/authorised-client-refused", "auth {auth:?}, identity {ident:?}: call failed: {} (handler runs {})", seen.error, seen.hits),
@@ -634,7 +704,7 @@ impl Prop for C15 {
         v
     }
     fn fixed_is_exhaustive() -> Option<&'static str> {
-        Some("the full configuration matrix (125 cells) x 2 fixed pipe schedules is enumerated completely")
+        Some("the full configuration matrix (135 cells) x 2 fixed pipe schedules is enumerated completely")
     }
     fn max_shrink_iters() -> u32 {
         200
